@@ -31,8 +31,8 @@ type c13L struct {
 }
 
 func init() {
-	steps := []string{"sessionless", "discovery", "open", "rakp1", "rakp3", "insession", "close", "sdr-info", "sdr-reserve", "sdr-get1", "sdr-get3", "sdr-final", "wrongpw"}
-	faults := []string{"blackhole", "late", "garbage", "tempcode", "trunc", "ffrun"}
+	steps := []string{"sessionless", "discovery", "open", "rakp1", "rakp3", "insession", "close", "sdr-info", "sdr-reserve", "sdr-get1", "sdr-get2", "sdr-get3", "sdr-get4", "sdr-final", "wrongpw"}
+	faults := []string{"blackhole", "late", "garbage", "tempcode", "trunc", "ffrun", "drop-once"}
 	register(&Check{
 		ID:      "C13",
 		Level:   "fault_enumeration",
@@ -49,7 +49,7 @@ func init() {
 			for _, st := range steps {
 				for fi, f := range faults {
 					for ri, rt := range ratios {
-						if tier == "quick" && (fi+ri+len(st))%3 != int(seed%3+3)%3 && !(st == "wrongpw" && f == "blackhole" && ri < 2) {
+						if tier == "quick" && (fi+ri+len(st))%3 != int(seed%3+3)%3 && !(st == "wrongpw" && f == "blackhole" && ri < 2) && !(f == "drop-once" && ri == 2 && (st == "sdr-get2" || st == "sdr-get4" || st == "discovery")) {
 							continue
 						}
 						cs = append(cs, ev.MkCase("udp", c13P{Step: st, Fault: f, Timeout: rt[0], Deadline: rt[1], Seed: seed}))
@@ -130,13 +130,10 @@ func c13Match(step string, b *refbmc.BMC, getCount *int) bool {
 		return e.Kind == "session-ipmi" && e.NetFn == 0x0a && e.Cmd == 0x20
 	case "sdr-reserve":
 		return e.Kind == "session-ipmi" && e.NetFn == 0x0a && e.Cmd == 0x22
-	case "sdr-get1", "sdr-get3":
+	case "sdr-get1", "sdr-get2", "sdr-get3", "sdr-get4":
 		if e.Kind == "session-ipmi" && e.NetFn == 0x0a && e.Cmd == 0x23 {
 			*getCount++
-			want := 1
-			if step == "sdr-get3" {
-				want = 3
-			}
+			want := int(step[len(step)-1] - '0')
 			return *getCount >= want
 		}
 	case "sdr-final":
@@ -153,7 +150,8 @@ func c13UDP(run *ev.Run, p c13P, cs ev.Case) string {
 	cfg := defaultCfg(r)
 	b := refbmc.New(cfg)
 	repo := c13Repo(r)
-	cssrv := &refbmc.CipherSuiteServer{Channel: 1, Data: refbmc.EncodeSuiteRecords([]refbmc.SuiteRecord{{ID: 3, Auth: 1, Integs: []byte{1}, Confs: []byte{1}}, {ID: 17, Auth: 3, Integs: []byte{4}, Confs: []byte{1}}})}
+	cssrv := &refbmc.CipherSuiteServer{Channel: 1, Data: refbmc.EncodeSuiteRecords([]refbmc.SuiteRecord{{ID: 0x81, OEM: true, IANA: 0x00b4e2, Auth: 1, Integs: []byte{1, 2}, Confs: []byte{1}}, {ID: 3, Auth: 1, Integs: []byte{1}, Confs: []byte{1}},
+		{ID: 0xff, Auth: 2, Integs: []byte{2}, Confs: []byte{1}}, {ID: 17, Auth: 3, Integs: []byte{4}, Confs: []byte{1}}, {ID: 0xc0, OEM: true, IANA: 0x000157, Auth: 3, Integs: []byte{4}, Confs: []byte{1, 2, 3}}})}
 	b.Handler = refbmc.Chain(repo.Handle, cssrv.Handle, refbmc.Fixed(6, 0x37, 0, rbytes(r, 16)),
 		refbmc.Fixed(6, 0x01, 0, []byte{0x20, 0x81, 0x03, 0x15, 0x02, 0xbf, 0x57, 0x01, 0x00, 0x34, 0x12}), refbmc.Fixed(6, 0x3c, 0, nil))
 	srv, err := udpbmc.Listen(b)
@@ -170,6 +168,7 @@ func c13UDP(run *ev.Run, p c13P, cs ev.Case) string {
 	faultOn := false
 	getCount := 0
 	validSent := 0
+	dropped := 0
 	srv.SetFault(func(n int, req, reply []byte) ([][]byte, time.Duration) {
 		if !faultOn && c13Match(p.Step, b, &getCount) {
 			faultOn = true
@@ -181,6 +180,16 @@ func c13UDP(run *ev.Run, p c13P, cs ev.Case) string {
 			return [][]byte{reply}, 0
 		}
 		switch p.Fault {
+		case "drop-once":
+			// exactly one reply is lost; everything afterwards is answered
+			dropped++
+			if dropped == 1 {
+				return nil, 0
+			}
+			if reply != nil {
+				validSent++
+			}
+			return [][]byte{reply}, 0
 		case "blackhole":
 			return nil, 0
 		case "late":
@@ -243,6 +252,7 @@ func c13UDP(run *ev.Run, p c13P, cs ev.Case) string {
 	}()
 	start := time.Now()
 	var callErr error
+	sdrCount := -1
 	done := make(chan struct{})
 	var pv any
 	var stk string
@@ -259,7 +269,9 @@ func c13UDP(run *ev.Run, p c13P, cs ev.Case) string {
 			case "close":
 				callErr = sess.Close(ctx)
 			default:
-				_, callErr = bmc.RetrieveSDRRepository(ctx, sess)
+				var m bmc.SDRRepository
+				m, callErr = bmc.RetrieveSDRRepository(ctx, sess)
+				sdrCount = len(m)
 			}
 		})
 	}()
@@ -309,7 +321,11 @@ func c13UDP(run *ev.Run, p c13P, cs ev.Case) string {
 		run.Violation(key, fmt.Sprintf("%s: returned %v after the deadline (allowance 250ms; canary lateness %v; err=%v)", desc, overshoot, late, callErr), cs, nil)
 		return "violated"
 	}
-	if callErr == nil && (p.Deadline <= 0 || (faultOn && p.Fault != "late")) {
+	if callErr == nil && sdrCount >= 0 && sdrCount != 3 {
+		run.Violation("C13:success-without-valid-response:"+p.Step, fmt.Sprintf("%s: retrieval reported success with %d of the 3 records although a reply was lost on the way", desc, sdrCount), cs, nil)
+		return "violated"
+	}
+	if callErr == nil && (p.Deadline <= 0 || (faultOn && p.Fault != "late" && p.Fault != "drop-once")) {
 		run.Violation("C13:success-without-valid-response:"+p.Step, fmt.Sprintf("%s: call reported success although no valid response could have been obtained", desc), cs, nil)
 		return "violated"
 	}
@@ -370,7 +386,8 @@ func c13Mem(run *ev.Run, l c13L, cs ev.Case) {
 	opts := &bmc.V2SessionOpts{SessionOpts: bmc.SessionOpts{Username: cfg.Username, Password: cfg.Password, MaxPrivilegeLevel: ipmi.PrivilegeLevelAdministrator}, CipherSuites: []ipmi.CipherSuite{ipmi.CipherSuite3}}
 	if l.Step == "discovery" {
 		opts.CipherSuites = nil
-		cssrv.Data = refbmc.EncodeSuiteRecords([]refbmc.SuiteRecord{{ID: 3, Auth: 1, Integs: []byte{1}, Confs: []byte{1}}, {ID: 17, Auth: 3, Integs: []byte{4}, Confs: []byte{1}}})
+		cssrv.Data = refbmc.EncodeSuiteRecords([]refbmc.SuiteRecord{{ID: 0x81, OEM: true, IANA: 0x00b4e2, Auth: 1, Integs: []byte{1, 2}, Confs: []byte{1}}, {ID: 3, Auth: 1, Integs: []byte{1}, Confs: []byte{1}},
+			{ID: 0xff, Auth: 2, Integs: []byte{2}, Confs: []byte{1}}, {ID: 17, Auth: 3, Integs: []byte{4}, Confs: []byte{1}}})
 	}
 	if l.Step == "wrongpw" {
 		opts.Password = append(append([]byte(nil), opts.Password...), 0x78)
